@@ -174,7 +174,11 @@ pub fn eval(c: &RawCase) -> Outcome {
         }
         let (want_lo, want_hi) = ends.iter().fold((0.0f64, 0.0f64), |m, e| (m.0.max(e.0), m.1.max(e.1)));
         let got = s.duration_secs() * 90000.0;
-        if tie {
+        // once the model has lost track (an unconstrained call whose outcome it could not follow) its ticks are meaningless
+        let desynced = steps.iter().take(f).any(|s| matches!(&s.verdict, Verdict::Either(r) if r == "after_unconstrained_call"));
+        if desynced {
+            o.unconstrained.push("model_desynced_after_unconstrained_call".into());
+        } else if tie {
             o.unconstrained.push("half_tick_tie".into());
         } else if want_hi >= 9.0e15 {
             o.unconstrained.push("timestamp_beyond_2^53_ticks(C16)".into());
@@ -188,6 +192,47 @@ pub fn eval(c: &RawCase) -> Outcome {
         }
         if reference.stats.is_some() && own_stats && run.stats != reference.stats {
             o.fail("frames", "stats.differ_from_plain_run", format!("stats {:?} differ from the plain run's {:?}", run.stats, reference.stats));
+        }
+    }
+    // "the exact number of bytes delivered to the sink" must hold for every legal sink: the same accepted calls on a sink
+    // that takes only a few bytes per write call (no error) must deliver the same file and report the same count
+    if o.violations.is_empty() && !run.out.is_empty() {
+        struct Chunky {
+            buf: std::sync::Arc<std::sync::Mutex<Vec<u8>>>,
+            k: usize,
+            calls: usize,
+        }
+        impl std::io::Write for Chunky {
+            fn write(&mut self, b: &[u8]) -> std::io::Result<usize> {
+                self.calls += 1;
+                let n = b.len().min(1 + (self.k + self.calls * 7) % 23);
+                self.buf.lock().unwrap().extend_from_slice(&b[..n]);
+                Ok(n)
+            }
+            fn flush(&mut self) -> std::io::Result<()> {
+                Ok(())
+            }
+        }
+        let buf = std::sync::Arc::new(std::sync::Mutex::new(Vec::new()));
+        let (_, res) = crate::exec::run_plain(Chunky { buf: buf.clone(), k: run.out.len(), calls: 0 }, &cfg, &plain, &|_| ());
+        let delivered = buf.lock().unwrap().clone();
+        o.sub_evals += 1;
+        match res.last() {
+            Some(CallResult::OkStats(st)) => {
+                if delivered != run.out {
+                    o.fail("once", "once.short_writing_sink.bytes_differ", format!("a sink that accepts a few bytes per call received {} bytes, a whole-buffer sink {}", delivered.len(), run.out.len()));
+                } else if st.bytes_written != delivered.len() as u64 {
+                    o.fail(
+                        "bytes",
+                        format!("bytes.short_writing_sink.delta={}", st.bytes_written as i64 - delivered.len() as i64),
+                        format!("stats.bytes_written {} but the short-writing sink received {} bytes", st.bytes_written, delivered.len()),
+                    );
+                }
+            }
+            Some(other) if !matches!(other, CallResult::Panic(_)) => {
+                o.fail("once", "once.short_writing_sink.finish_failed", format!("finish returned {} on a sink that only shortens writes", other.short()));
+            }
+            _ => {}
         }
     }
     let n_finish = ops.iter().filter(|op| op.is_finish()).count();
